@@ -237,11 +237,17 @@ func checkC05(r *harness.Run) harness.Coverage {
 		Cmps: univ.Tks("=="), Or: true, Not: true, Paren: true, Pipe: true, WildIdx: true,
 		MaxList: 2, MaxArgs: 2, MinArgs: 2, AmpAnywhere: true, Weight: univ.StructuralWeight,
 	}
+	// a reference used as a VALUE by every navigation construct: (&a).*, (&a)[0], (&a)[], (&a)[?@], (&a)[::1], (&a).a, [&a][*].*, {x: &a}.*.*
+	anyRefNav := &univ.Fragment{
+		Idents: univ.Tks("a"), Leaves: univ.Tks("@"), Nums: univ.Tks("0"), Slices: [][]model.Tok{univ.Tks(":", ":", "1")},
+		Paren: true, Dot: true, Star: true, WildIdx: true, Flatten: true, Filter: true, Pipe: true, FilterConds: [][]model.Tok{univ.Lx("@")},
+		MaxList: 2, MaxHash: 1, AmpAnywhere: true, Weight: univ.StructuralWeight,
+	}
 	var gen int64
 	for _, part := range []struct {
 		f    *univ.Fragment
 		maxW int
-	}{{hostile, hw}, {univ.ProjFragment(), 4}, {univ.CoreFragment(), 4}, {univ.ErrFragment(errCompounds), 4}, {anyRef, 5}, {anyRefDeep, 7}} {
+	}{{hostile, hw}, {univ.ProjFragment(), 4}, {univ.CoreFragment(), 4}, {univ.ErrFragment(errCompounds), 4}, {anyRef, 5}, {anyRefDeep, 7}, {anyRefNav, 6}} {
 		g := univ.NewGen(part.f)
 		for wt := 1; wt <= part.maxW; wt++ {
 			ss := g.Sentences(wt)
